@@ -21,7 +21,11 @@ RULE = ("direct calls of the real EtherCat.roundtrip with an echo consumer "
         "a case = one call; non-trivial = at least one format or raw data")
 ASSUMPTIONS = []
 MIN_EVALUATIONS = {"quick": 5000, "thorough": 200000}
-TOK = ["B", "H", "I", "Q", "b", "h", "i", "q", "2x", "4s", "HB", "IH", "BBH"]
+TOK = ["B", "H", "I", "Q", "b", "h", "i", "q", "2x", "4s", "HB", "IH", "BBH",
+       # formats whose native (aligned) layout differs from the packed one
+       "BH", "HI", "BQ", "H4xI", "bq", "BHI",
+       # floating point members
+       "f", "d", "Hf"]
 
 
 def plan(tier, seed):
@@ -41,6 +45,11 @@ def values_for(rng, fmt):
             if kind == "s":
                 out.append(bytes(rng.getrandbits(8) for _ in range(n)))
             i += 2
+            continue
+        if ch in "fd":
+            out.append(rng.choice([0.5, 2.5, -1.25, 0.1, 1e-3, 3.0,
+                                   rng.randint(-1000, 1000) / 8]))
+            i += 1
             continue
         size = struct.calcsize("<" + ch)
         v = rng.getrandbits(8 * size)
@@ -163,7 +172,7 @@ async def one(ec, case, res):
     else:
         want = resp
     res.count("returns_compared")
-    if ret != want:
+    if repr(ret) != repr(want):       # repr: NaN fields compare equal
         res.violation("unexplained:return-value",
                       f"returned {ret!r}, expected {want!r}", case=case)
     elif len(res.samples) < 3:
